@@ -103,7 +103,16 @@ fn main() {
                     let mut n = 0u64;
                     let mut i = t;
                     while i < count {
-                        let (h, w) = make_history(&prop, seed, i, len);
+                        let made = std::panic::catch_unwind(|| make_history(&prop, seed, i, len));
+                        let (h, w) = match made {
+                            Ok(x) => x,
+                            Err(_) => {
+                                // a bug of the harness itself: counted, reported by the check
+                                stats.bump("HARNESS-PANIC:generator");
+                                i += threads;
+                                continue;
+                            }
+                        };
                         tf.write_all(w.trace.as_bytes()).unwrap();
                         hf.write_all(serde_json::to_string(&h).unwrap().as_bytes()).unwrap();
                         hf.write_all(b"\n").unwrap();
